@@ -148,7 +148,7 @@ def refdrill(ids):
     ids = ids or sorted(d for d in os.listdir(rd) if os.path.isdir(os.path.join(rd, d)))
     rc, out = sh('git status --porcelain --untracked-files=no', cwd=R)
     assert out.strip() == '', '/repo is dirty:\n' + out
-    resf = os.path.join(V, 'seeded', 'REFACTOR_RESULTS.json')
+    resf = os.path.join(V, 'seeded', 'REFACTOR_RESULTS.json') if SAVE else '/tmp/wt/REFACTOR_RESULTS.side.json'
     try:
         results = json.load(open(resf))
     except (OSError, ValueError):
